@@ -235,6 +235,31 @@ def build_option_case(R, tool, bname, alias, files, outdir, suffix, with_optiona
                  rolepos=rolepos, outs=outs, hcase=" ".join(h), cls="option", model=files["name"], suffix=suffix,
                  desc="%s %s on %s%s%s" % (tool["name"], alias, files["name"], " +optional" if with_optional else "", (" " + cm_mode) if cm_mode else ""))
 
+def gen_corpus(R, fsets):
+    cp = os.path.join(core.VERIF, "corpus", "C20.txt")
+    if not os.path.exists(cp): return
+    tools = {t["name"]: t for t in R.tools}
+    fs = fsets[0]; od = os.path.join(fs["dir"], "corpus"); os.makedirs(od, exist_ok=True)
+    for n, line in enumerate(open(cp)):
+        w = line.split()
+        if not w or w[0].startswith("#"): continue
+        t = tools.get(w[1])
+        if t is None: continue
+        if w[0] == "option":
+            alias = w[2]
+            blk = [b for b in t["blocks"] if alias in b["aliases"]]
+            if not blk or blk[0]["aliases"][0] not in DOC.get(t["name"], {}): continue       # alias gone: the documented-alias check reports it
+            c = build_option_case(R, t, blk[0]["aliases"][0], alias, fs, fs["dir"], w[4], w[3] == "1", tag="_corpus%d" % n)
+            c["desc"] = "corpus: " + c["desc"]
+        elif w[0] == "reject":
+            args = []
+            for a in w[2:]:
+                if a.startswith("{tmp}"): args.append(od + a[5:])
+                elif a.startswith("{") and a.endswith("}"): args.append(str(fs.get(a[1:-1], a)))
+                else: args.append(a)
+            sym = " ".join(w[1:])
+            R.add(tool=w[1], args=args, off=0, expect="reject", cls="reject:corpus", model=fs["name"], suffix="", sym=sym, cwd=od, desc="corpus: " + sym)
+
 def gen_cases(R, rng, quick, wd, fsets):
     tools = {t["name"]: t for t in R.tools}
     ta, tg = tools.get("om_assemble"), tools.get("om_gain")
@@ -254,6 +279,7 @@ def gen_cases(R, rng, quick, wd, fsets):
             R.add(tool="om_minverser", args=[fs["hm"], out], off=0, expect="ok", outs=[(out, os.path.join(od, "ref_hminv_canon.bin"), "sym")],
                   hcase="MINV %s %s" % (fs["hm"], os.path.join(od, "ref_hminv_canon.bin")), cls="positional", model=fs["name"], suffix=".bin",
                   desc="om_minverser on %s" % fs["name"])
+    gen_corpus(R, fsets)
     # ---- phase B: every alias of every option, rotating models / suffixes; optional arguments
     for tool in (ta, tg):
         if not tool: continue
@@ -555,6 +581,7 @@ def evaluate(ck, R, c, pred, rc, txt, before, after, hres):
         elif pred["final"] == "crash":
             P("reads outside argv", "the generated table reads opt_parms/argv beyond the arguments given (reads %s, argc %d); the executable %s" % (
                 [e["reads"] for e in pred["execs"]], len(c["args"]) + 1, "crashed" if crashed else "ended with status %d" % rc))
+            return probs
     # ---- documented expectation
     if exp == "ok":
         if c["tool"] is not None:
